@@ -93,7 +93,7 @@ fn contains(hay: &[u8], needle: &[u8]) -> bool {
     needle.is_empty() || hay.windows(needle.len()).any(|w| w == needle)
 }
 
-pub fn run_mt(storm: &Storm, ext: &Ext, case: &MtCase, dir: &Path) -> Value {
+pub fn run_mt(storm: &Storm, ext: &Ext, case: &MtCase, dir: &Path, max_handle: &mut usize) -> Value {
     // ---- setup (single-threaded, Rust API first)
     let mut disks = vec![];
     let mut names: Vec<String> = vec!["absent.txt".into(), "(listfile)".into()];
@@ -219,6 +219,16 @@ pub fn run_mt(storm: &Storm, ext: &Ext, case: &MtCase, dir: &Path) -> Value {
             }
         }
     }
+    // sweep: nothing allocated during this run may stay alive for the next case of this worker
+    let top = sh.max_raw().max(*max_handle);
+    for v in *max_handle + 1..=top + 64 {
+        unsafe {
+            (storm.SFileFindClose)(v as Handle);
+            (storm.SFileCloseFile)(v as Handle);
+            (storm.SFileCloseArchive)(v as Handle);
+        }
+    }
+    *max_handle = top;
     let stats = json!({
         "calls": sh.calls.load(Ordering::SeqCst),
         "ok_calls": sh.ok_calls.load(Ordering::SeqCst),
